@@ -44,7 +44,7 @@ def recreateSync (body : Body) (primary : Bool) (time : Nat) : Body × Option Na
       | none =>
         match firstLater body time with
         | some j => (insertAt body j ⟨time, []⟩, some j)
-        | none => (body, none)
+        | none => (body ++ [⟨time, []⟩], some body.length)   -- no block yet: appended
 
 def appendP (body : Body) (idx : Option Nat) (p : PEntry) : Body :=
   match idx with
